@@ -129,6 +129,29 @@ def run(ctx, widen=False):
                 cases.append({"key": prog_key, "args": args, "mod": m}); mc += 1
     ctx.bump("modifier cases", mc)
     ctx.check_many("prefix_untouched", cases)
+    # the `pop` helper itself against its Lean model (object of pop_frame / pop_retain / pop_short): every count 0..5 on every
+    # stack of length 0..5, the four flag combinations; the inputs are 100, 101, … so a read is visible in the result
+    from vyxal.helpers import pop as real_pop
+    lines, exp = [], []
+    for n in range(0, 6):
+        st = list(range(1, n + 1))
+        for k in range(0, 6):
+            for retain in (False, True):
+                for rev in (False, True):
+                    c = Context(); c.inputs[0][0] = list(range(100, 140)); c.retain_popped = retain; c.reverse_flag = rev
+                    s_ = list(st)
+                    try:
+                        got = real_pop(s_, k, c)
+                        got = [got] if k == 1 else list(got)
+                        e = str(got).replace(" ", "") + " " + str(s_).replace(" ", "") + " " + str(c.inputs[0][1])
+                    except Exception as ex:  # noqa: BLE001
+                        e = "ERR " + type(ex).__name__
+                    lines.append(f"pophelper\t{k}|{' '.join(map(str, st))}|{'T' if retain else 'F'}{'T' if rev else 'F'}"); exp.append(e)
+    outp = ctx.driver(lines)
+    ctx.count("corr:pop-helper", len(lines))
+    for l, e, o in zip(lines, exp, outp):
+        if e != o:
+            ctx.disagree("pop-helper", l, e, o)
     ctx.sample({"key": "+", "args": [1, 2], "outcome": o_prefix({"key": "+", "args": [1, 2]})[1]})
     ctx.sample(cases[-1])
     ctx.exhaustive = False
